@@ -163,6 +163,67 @@ def expression_form(fn):
     return chain(body)
 
 
+def _contains_return(st):
+    for n in ast.walk(st):
+        if isinstance(n, ast.Return):
+            return True
+    return False
+
+
+def returns_to_assignments(stmts, make_assign):
+    """rewrite a statement list whose only exits are ``return`` statements in
+    straight-line code and if/else (no return inside a loop, try or with) so
+    that every ``return v`` becomes ``<target> = v``; the statements after an
+    ``if`` that returns are moved into the branches that do not.  Returns the
+    new list, or None if the shape is not supported."""
+    def conv(stmts):
+        out = []
+        for i, st in enumerate(stmts):
+            if isinstance(st, ast.Return):
+                out.append(make_assign(st.value, st))
+                return out, True
+            if isinstance(st, ast.If) and _contains_return(st):
+                rest = stmts[i + 1:]
+                b = conv(list(st.body))
+                if b is None:
+                    return None
+                body, bterm = b
+                if not bterm:
+                    r = conv(copy.deepcopy(rest))
+                    if r is None:
+                        return None
+                    body = body + r[0]
+                    if not r[1]:
+                        body.append(make_assign(None, st))
+                o = conv(list(st.orelse) + copy.deepcopy(rest)) if not (
+                    st.orelse and False) else None
+                if o is None:
+                    return None
+                orelse, oterm = o
+                if not oterm:
+                    orelse.append(make_assign(None, st))
+                new = ast.If(test=st.test, body=body or [ast.Pass()],
+                             orelse=orelse)
+                out.append(ast.copy_location(new, st))
+                return out, True
+            if _contains_return(st):
+                return None
+            out.append(st)
+        return out, False
+    r = conv(list(stmts))
+    if r is None:
+        return None
+    out, term = r
+    if not term:
+        out.append(make_assign(None, stmts[-1] if stmts else None))
+    return out
+
+
+_HOISTABLE = (ast.Call, ast.Attribute, ast.BinOp, ast.Tuple, ast.List,
+              ast.keyword, ast.Starred, ast.Subscript, ast.UnaryOp,
+              ast.Compare, ast.JoinedStr, ast.FormattedValue, ast.Dict)
+
+
 class Inliner:
     def __init__(self, module_funcs, class_methods=None, exclude=KNOWN_HELPERS):
         """module_funcs: {name: FunctionDef}; class_methods: {name: FunctionDef}
@@ -245,9 +306,56 @@ class Inliner:
                                                  depth)
                     if got is not None:
                         return got
+        # a statement-helper nested in the value of a simple statement is
+        # hoisted into an assignment of its own, which is then inlined
+        if isinstance(st, (ast.Assign, ast.Return, ast.Expr, ast.AugAssign)) \
+                and st.value is not None:
+            hoisted = self._hoist(st, owner)
+            if hoisted is not None:
+                return self._block(hoisted, depth + 1, owner)
         # expression-level inlining anywhere in the statement's own expressions
         self._inline_expressions(st, depth, owner)
         return [st]
+
+    def _hoist(self, st, owner):
+        """[tmp = helper(...), st'] for the first nested call to a helper that
+        has no expression form and is evaluated unconditionally; else None"""
+        found = []
+
+        def walk(node, top):
+            if found:
+                return
+            if isinstance(node, ast.Call) and not top:
+                res = self.resolve(node)
+                if res is not None and res[0].name != owner and \
+                        expression_form(res[0]) is None and \
+                        not _has_yield(res[0]):
+                    found.append(node)
+                    return
+            for ch in ast.iter_child_nodes(node):
+                if isinstance(ch, _HOISTABLE) or isinstance(
+                        ch, (ast.Name, ast.Constant, ast.expr_context,
+                             ast.operator, ast.unaryop, ast.cmpop)):
+                    if isinstance(ch, _HOISTABLE):
+                        walk(ch, False)
+        walk(st.value, True)
+        if not found:
+            return None
+        call = found[0]
+        tmp = f"_h{next(_counter)}_ret"
+        assign = ast.copy_location(
+            ast.Assign(targets=[ast.Name(id=tmp, ctx=ast.Store())],
+                       value=call, lineno=call.lineno), call)
+
+        class R(ast.NodeTransformer):
+            def visit_Call(self, node):
+                if node is call:
+                    return ast.copy_location(ast.Name(id=tmp, ctx=ast.Load()),
+                                             node)
+                return self.generic_visit(node)
+        st.value = R().visit(st.value)
+        ast.fix_missing_locations(assign)
+        return [assign, st]
 
     def _inline_expressions(self, st, depth, owner):
         inl = self
@@ -302,10 +410,9 @@ class Inliner:
             return None
         last_is_return = bool(body) and isinstance(body[-1], ast.Return)
         early = [r for r in returns if not (last_is_return and r is body[-1])]
-        if kind == "assign" and (early or not last_is_return
-                                 or body[-1].value is None):
-            return None
-        if kind == "expr" and (early or (last_is_return and False)):
+        convert = kind in ("assign", "expr") and bool(early)
+        if kind == "assign" and not convert and (
+                not last_is_return or body[-1].value is None):
             return None
         k = next(_counter)
         # rename parameters and locals
@@ -334,7 +441,20 @@ class Inliner:
             for n in ast.walk(b):
                 if not hasattr(n, "lineno"):
                     ast.copy_location(n, call)
-        if kind == "assign":
+        if convert:
+            def mk(value, at):
+                v = value if value is not None else ast.Constant(value=None)
+                if kind == "assign":
+                    node = ast.Assign(targets=copy.deepcopy(st.targets), value=v,
+                                      lineno=st.lineno)
+                else:
+                    node = ast.Expr(value=v)
+                return ast.copy_location(node, st)
+            conv = returns_to_assignments(body, mk)
+            if conv is None:
+                return None
+            body = conv
+        elif kind == "assign":
             ret = body.pop()
             body.append(ast.copy_location(
                 ast.Assign(targets=st.targets, value=ret.value,
